@@ -104,84 +104,111 @@ func runC18(c *fw.Ctx) {
 			// symbols that are genuinely unbound where they are evaluated (per the reference interpreter, also inside try)
 			// are legitimately handed to the callback with a scope in which they do not resolve
 			genuinelyUnbound := mref.It.UnboundSeen
-			ast, err := lisp.READ(text, types.NewCursorFile("prog.lisp"), nil)
-			if err != nil {
-				return
-			}
-			lisp.Stepper = nil
-			ref := b.runReal(ast)
-			if ref.Panicked {
-				c.Count("baseline_panicked", 1) // C04's business
-				return
-			}
-			c.Count("programs", 1)
-			if len(ref.Trace) > 0 {
-				c.Distinct("shapes", canon.Shape(canon.Li(forms...)))
-			}
-			for _, sc := range scripts {
-				calls := 0
-				var nilScope, unresolved string
-				seed := sr.Int63()
-				cr := rand.New(rand.NewSource(seed))
-				lisp.Stepper = func(a types.MalType, ns types.EnvType) debuggertypes.Command {
-					calls++
-					if ns == nil && nilScope == "" {
-						nilScope = lisp.PRINT(a)
-					}
-					if s, ok := a.(types.Symbol); ok && ns != nil && unresolved == "" {
-						if _, e := ns.Get(s); e != nil && !c18AllowedUnbound.MatchString(s.Val) && !genuinelyUnbound[s.Val] {
-							unresolved = s.Val
-						}
-					}
-					cmd := sc.next(calls-1, cr)
-					c.Count2("cmd." + []string{"noop", "next", "out", "in"}[cmd])
-					return cmd
-				}
-				rr := b.runReal(ast)
-				lisp.Stepper = nil
-				c.Count("stepped_runs", 1)
-				c.Count("callback_invocations", calls)
-				c.Count("script."+sc.name, 1)
-				in := fmt.Sprintf("script %s (seed %d)\n%s", sc.name, seed, text)
-				if rr.Panicked {
-					c.Violate(fw.Violation{Key: "panic-under-stepper@" + rr.Site, What: "EVAL panicked with a stepper installed: " + rr.PanicMsg, Input: in, Detail: rr.Stack})
-					return
-				}
-				if nilScope != "" {
-					c.Violate(fw.Violation{Key: "nil-scope", What: "the stepper callback was handed a nil scope with form " + nilScope, Input: in})
-					return
-				}
-				if unresolved != "" {
-					c.Violate(fw.Violation{Key: "unresolvable-symbol", What: "the callback was handed symbol " + unresolved + " together with a scope in which it does not resolve", Input: in})
-					return
-				}
-				if rr.Class != ref.Class {
-					c.Violate(fw.Violation{Key: "outcome:" + sc.name, What: fmt.Sprintf("without stepper: %s; with stepper script %s: %s", outcomeStr(ref), sc.name, outcomeStr(rr)), Input: in})
-					return
-				}
-				if rr.Err == nil && !c12SameModuloGensym(rr.Val, ref.Val) {
-					c.Violate(fw.Violation{Key: "value:" + sc.name, What: fmt.Sprintf("without stepper %s, with stepper %s", canon.Render(ref.Val), canon.Render(rr.Val)), Input: in})
-					return
-				}
-				if rr.Thrown != nil && ref.Thrown != nil && !c12SameModuloGensym(rr.Thrown, ref.Thrown) {
-					c.Violate(fw.Violation{Key: "thrown:" + sc.name, What: fmt.Sprintf("thrown value differs: %s vs %s", canon.Render(ref.Thrown), canon.Render(rr.Thrown)), Input: in})
-					return
-				}
-				if len(rr.Trace) != len(ref.Trace) {
-					c.Violate(fw.Violation{Key: "trace:" + sc.name, What: fmt.Sprintf("ordered side effects differ: %d events without stepper, %d with script %s", len(ref.Trace), len(rr.Trace), sc.name), Input: in})
-					return
-				}
-				for k := range rr.Trace {
-					if !c12SameModuloGensym(rr.Trace[k], ref.Trace[k]) {
-						c.Violate(fw.Violation{Key: "trace:" + sc.name, What: fmt.Sprintf("trace event %d differs: %s vs %s", k, canon.Render(ref.Trace[k]), canon.Render(rr.Trace[k])), Input: in})
-						return
-					}
-				}
-			}
+			c18Compare(c, b, scripts, sr, text, canon.Shape(canon.Li(forms...)), genuinelyUnbound)
 			if i == 0 {
 				c.Sample(text)
 			}
 		})
+	}
+	// long-running programs: thousands of tail calls, deep (non-tail) recursion and long macro-expansion chains run
+	// the same with and without a stepper (programs that fit the host stack comfortably)
+	long := []string{
+		"(do (def sum-to (fn (n acc) (if (< n 1) acc (sum-to (- n 1) (+ acc n))))) (trace! (sum-to %d 0)) (trace! :after))",
+		"(do (def ping (fn (n) (if (< n 1) :done (pong (- n 1))))) (def pong (fn (n) (cond (< n 1) :done-pong :else (ping (- n 1))))) (trace! (ping %d)))",
+		"(do (def down (fn (n) (if (< n 1) 0 (+ 1 (down (- n 1)))))) (trace! (down (/ %d 10))))",
+		"(do (def lp (fn (n) (let (m (- n 1)) (if (< m 1) (trace! :end) (do (if (= 0 (- m (* 1000 (/ m 1000)))) (trace! m)) (lp m)))))) (lp %d))",
+		"(do (def a (atom 0)) (def bump (fn (n) (if (< n 1) @a (do (swap! a inc) (bump (- n 1)))))) (trace! (bump %d)))",
+		"(do (def guarded (fn (n) (try (if (< n 1) (throw :bottom) (guarded (- n 1))) (catch e (do (if (< n 3) (trace! (list :unwinding n))) (throw e)))))) (try (guarded (/ %d 20)) (catch e (trace! e))))",
+	}
+	for li, tmpl := range long {
+		for _, n := range []int{4000, 6000, 12000} {
+			if !c.Mine(li*3 + n/5000) {
+				continue
+			}
+			text := fmt.Sprintf(tmpl, n)
+			c.Case(fmt.Sprintf("long-%d-%d", li, n), text, func() {
+				c.Count("long_running_programs", 1)
+				c18Compare(c, b, scripts[:8], sr, text, fmt.Sprintf("long-%d", li), map[string]bool{})
+			})
+		}
+	}
+}
+
+// c18Compare runs text without a stepper and under every script and reports any difference.
+func c18Compare(c *fw.Ctx, b *diffBase, scripts []c18Script, sr *rand.Rand, text, shape string, genuinelyUnbound map[string]bool) {
+	ast, err := lisp.READ(text, types.NewCursorFile("prog.lisp"), nil)
+	if err != nil {
+		return
+	}
+	lisp.Stepper = nil
+	ref := b.runReal(ast)
+	if ref.Panicked {
+		c.Count("baseline_panicked", 1) // C04's business
+		return
+	}
+	c.Count("programs", 1)
+	if len(ref.Trace) > 0 {
+		c.Distinct("shapes", shape)
+	}
+	for _, sc := range scripts {
+		calls := 0
+		var nilScope, unresolved string
+		seed := sr.Int63()
+		cr := rand.New(rand.NewSource(seed))
+		lisp.Stepper = func(a types.MalType, ns types.EnvType) debuggertypes.Command {
+			calls++
+			if ns == nil && nilScope == "" {
+				nilScope = lisp.PRINT(a)
+			}
+			if s, ok := a.(types.Symbol); ok && ns != nil && unresolved == "" {
+				if _, e := ns.Get(s); e != nil && !c18AllowedUnbound.MatchString(s.Val) && !genuinelyUnbound[s.Val] {
+					unresolved = s.Val
+				}
+			}
+			cmd := sc.next(calls-1, cr)
+			c.Count2("cmd." + []string{"noop", "next", "out", "in"}[cmd])
+			return cmd
+		}
+		rr := b.runReal(ast)
+		lisp.Stepper = nil
+		c.Count("stepped_runs", 1)
+		c.Count("callback_invocations", calls)
+		c.Count("script."+sc.name, 1)
+		in := fmt.Sprintf("script %s (seed %d)\n%s", sc.name, seed, text)
+		if rr.Panicked {
+			c.Violate(fw.Violation{Key: "panic-under-stepper@" + rr.Site, What: "EVAL panicked with a stepper installed: " + rr.PanicMsg, Input: in, Detail: rr.Stack})
+			return
+		}
+		if nilScope != "" {
+			c.Violate(fw.Violation{Key: "nil-scope", What: "the stepper callback was handed a nil scope with form " + nilScope, Input: in})
+			return
+		}
+		if unresolved != "" {
+			c.Violate(fw.Violation{Key: "unresolvable-symbol", What: "the callback was handed symbol " + unresolved + " together with a scope in which it does not resolve", Input: in})
+			return
+		}
+		if rr.Class != ref.Class {
+			c.Violate(fw.Violation{Key: "outcome:" + sc.name, What: fmt.Sprintf("without stepper: %s; with stepper script %s: %s", outcomeStr(ref), sc.name, outcomeStr(rr)), Input: in})
+			return
+		}
+		if rr.Err == nil && !c12SameModuloGensym(rr.Val, ref.Val) {
+			c.Violate(fw.Violation{Key: "value:" + sc.name, What: fmt.Sprintf("without stepper %s, with stepper %s", canon.Render(ref.Val), canon.Render(rr.Val)), Input: in})
+			return
+		}
+		if rr.Thrown != nil && ref.Thrown != nil && !c12SameModuloGensym(rr.Thrown, ref.Thrown) {
+			c.Violate(fw.Violation{Key: "thrown:" + sc.name, What: fmt.Sprintf("thrown value differs: %s vs %s", canon.Render(ref.Thrown), canon.Render(rr.Thrown)), Input: in})
+			return
+		}
+		if len(rr.Trace) != len(ref.Trace) {
+			c.Violate(fw.Violation{Key: "trace:" + sc.name, What: fmt.Sprintf("ordered side effects differ: %d events without stepper, %d with script %s", len(ref.Trace), len(rr.Trace), sc.name), Input: in})
+			return
+		}
+		for k := range rr.Trace {
+			if !c12SameModuloGensym(rr.Trace[k], ref.Trace[k]) {
+				c.Violate(fw.Violation{Key: "trace:" + sc.name, What: fmt.Sprintf("trace event %d differs: %s vs %s", k, canon.Render(ref.Trace[k]), canon.Render(rr.Trace[k])), Input: in})
+				return
+			}
+		}
 	}
 }
 
